@@ -288,6 +288,7 @@ func (s *SecureChannel) dispatcher() {
 			}
 
 			ch, ok := s.popHandler(msg.RequestID)
+			verifPoint("disp.pop", s, "req", msg.RequestID, "ok", ok, "err", msg.Err, "body", msg.body)
 
 			if !ok {
 				debug.Printf("uasc %d/%d: no handler for %T", s.c.ID(), msg.RequestID, msg.body)
@@ -300,6 +301,7 @@ func (s *SecureChannel) dispatcher() {
 			}
 
 			debug.Printf("uasc %d/%d: sending %T to handler", s.c.ID(), msg.RequestID, msg.body)
+			verifPoint("disp.handoff", s, "req", msg.RequestID)
 			select {
 			case ch <- msg:
 			default:
@@ -307,6 +309,7 @@ func (s *SecureChannel) dispatcher() {
 				debug.Printf("uasc %d/%d: unexpected state. channel write should always succeed.", s.c.ID(), msg.RequestID)
 			}
 
+			verifPoint("disp.gate", s, "req", msg.RequestID)
 			s.rcvLocker.waitIfLock()
 		}
 	}
@@ -334,6 +337,7 @@ func (s *SecureChannel) Receive(ctx context.Context) *MessageBody {
 
 			hdr := chunk.Header
 			reqID := chunk.SequenceHeader.RequestID
+			verifPoint("recv.chunk", s, "chan", hdr.SecureChannelID, "type", hdr.MessageType, "kind", hdr.ChunkType, "seq", chunk.SequenceHeader.SequenceNumber, "req", reqID, "len", len(chunk.Data), "chunk", chunk)
 
 			strdat := string(chunk.Data)
 			if strings.Contains(strdat, "CurrentTime") {
@@ -634,6 +638,7 @@ func (s *SecureChannel) open(ctx context.Context, instance *channelInstance, req
 		s.openingInstance.sequenceNumber = instance.sequenceNumber
 		s.openingInstance.secureChannelID = instance.secureChannelID
 	}
+	verifPoint("open.copied", s, "seq", s.openingInstance.sequenceNumber, "renew", requestType == ua.SecurityTokenRequestTypeRenew)
 
 	// trigger cleanup after we are all done
 	defer func() {
@@ -700,6 +705,7 @@ func (s *SecureChannel) handleOpenSecureChannelResponse(resp *ua.OpenSecureChann
 
 	s.activeInstance = instance
 
+	verifPoint("open.installed", s, "chan", instance.secureChannelID, "tok", instance.securityTokenID, "lifetime", instance.revisedLifetime, "created", instance.createdAt)
 	debug.Printf("uasc %d: received security token. channelID=%d tokenID=%d createdAt=%s lifetime=%s", s.c.ID(), instance.secureChannelID, instance.securityTokenID, instance.createdAt.Format(time.RFC3339), instance.revisedLifetime)
 
 	// depending on whether the channel is used in a client
@@ -783,6 +789,7 @@ func (s *SecureChannel) handleOpenSecureChannelRequest(reqID uint32, svc ua.Requ
 
 	instance := s.openingInstance
 	instance.algo = algo
+	verifPoint("srv.opn.begin", s, "chan", instance.secureChannelID, "tok", instance.securityTokenID, "type", req.RequestType)
 	instance.sc.requestID = req.RequestHeader.RequestHandle // todo(fs): is this correct?
 
 	nonce := make([]byte, instance.algo.NonceLength())
@@ -829,6 +836,7 @@ func (s *SecureChannel) handleOpenSecureChannelRequest(reqID uint32, svc ua.Requ
 	s.activeInstance = instance
 	s.instancesMu.Unlock()
 
+	verifPoint("srv.opn.end", s, "chan", instance.secureChannelID, "tok", instance.securityTokenID)
 	return nil
 }
 
@@ -838,6 +846,7 @@ func (s *SecureChannel) scheduleRenewal(instance *channelInstance) {
 	// clients will receive the new SecurityToken before the old one actually expire
 	const renewAfter = 0.75
 	when := time.Second * time.Duration(instance.revisedLifetime.Seconds()*renewAfter)
+	verifPoint("renew.sched", s, "when", when, "lifetime", instance.revisedLifetime, "tok", instance.securityTokenID)
 
 	debug.Printf("uasc %d: security token is refreshed at %s (%s). channelID=%d tokenID=%d", s.c.ID(), time.Now().UTC().Add(when).Format(time.RFC3339), when, instance.secureChannelID, instance.securityTokenID)
 
@@ -850,6 +859,7 @@ func (s *SecureChannel) scheduleRenewal(instance *channelInstance) {
 	case <-t.C:
 	}
 
+	verifPoint("renew.fire", s, "tok", instance.securityTokenID)
 	// TODO: where should this error go?
 	_ = s.renew(instance)
 }
@@ -858,10 +868,13 @@ func (s *SecureChannel) renew(instance *channelInstance) error {
 	// lock ensure no one else renews this at the same time
 	s.reqLocker.lock()
 	defer s.reqLocker.unlock()
+	verifPoint("renew.locked", s)
 	s.pendingReq.Wait()
+	verifPoint("renew.waited", s)
 	instance.Lock()
 	defer instance.Unlock()
 
+	verifPoint("renew.instlocked", s, "tok", instance.securityTokenID, "seq", instance.sequenceNumber)
 	return s.open(context.Background(), instance, ua.SecurityTokenRequestTypeRenew)
 }
 
@@ -870,6 +883,7 @@ func (s *SecureChannel) scheduleExpiration(instance *channelInstance) {
 	// Clients should accept Messages secured by an expired SecurityToken for up to 25 % of the token lifetime.
 	const expireAfter = 1.25
 	when := instance.createdAt.Add(time.Second * time.Duration(instance.revisedLifetime.Seconds()*expireAfter))
+	verifPoint("expire.sched", s, "when", time.Until(when), "lifetime", instance.revisedLifetime, "tok", instance.securityTokenID, "chan", instance.secureChannelID)
 
 	debug.Printf("uasc %d: security token expires at %s. channelID=%d tokenID=%d", s.c.ID(), when.UTC().Format(time.RFC3339), instance.secureChannelID, instance.securityTokenID)
 
@@ -885,6 +899,7 @@ func (s *SecureChannel) scheduleExpiration(instance *channelInstance) {
 	s.instancesMu.Lock()
 	defer s.instancesMu.Unlock()
 
+	verifPoint("expire.run", s, "tok", instance.securityTokenID, "chan", instance.secureChannelID)
 	oldInstances := s.instances[instance.securityTokenID]
 
 	s.instances[instance.securityTokenID] = []*channelInstance{}
@@ -913,7 +928,9 @@ func (s *SecureChannel) sendRequestWithTimeout(
 	timeout time.Duration,
 	h ResponseHandler) error {
 
+	verifPoint("send.enter", s, "req", reqID, "tok", instance.securityTokenID)
 	s.pendingReq.Add(1)
+	verifPoint("send.add", s, "req", reqID)
 	respRequired := h != nil
 
 	ch, err := s.sendAsyncWithTimeout(ctx, req, reqID, instance, authToken, respRequired, timeout)
@@ -932,12 +949,15 @@ func (s *SecureChannel) sendRequestWithTimeout(
 
 	select {
 	case <-ctx.Done():
+		verifPoint("wait.ctx", s, "req", reqID)
 		s.popHandler(reqID)
 		return ctx.Err()
 	case <-s.disconnected:
+		verifPoint("wait.disc", s, "req", reqID)
 		s.popHandler(reqID)
 		return io.EOF
 	case msg := <-ch:
+		verifPoint("wait.msg", s, "req", reqID)
 		if msg.Err != nil {
 			if msg.Response() != nil {
 				_ = h(msg.Response()) // ignore result because msg.Err takes precedence
@@ -946,6 +966,7 @@ func (s *SecureChannel) sendRequestWithTimeout(
 		}
 		return h(msg.Response())
 	case <-timer.C:
+		verifPoint("wait.timeout", s, "req", reqID)
 		s.popHandler(reqID)
 		return ua.StatusBadTimeout
 	}
@@ -978,6 +999,7 @@ func (s *SecureChannel) SendRequest(ctx context.Context, req ua.Request, authTok
 
 func (s *SecureChannel) SendRequestWithTimeout(ctx context.Context, req ua.Request, authToken *ua.NodeID, timeout time.Duration, h ResponseHandler) error {
 	s.reqLocker.waitIfLock()
+	verifPoint("send.gate", s)
 	active, err := s.getActiveChannelInstance()
 	if err != nil {
 		return err
@@ -998,6 +1020,7 @@ func (s *SecureChannel) sendAsyncWithTimeout(
 
 	instance.Lock()
 	defer instance.Unlock()
+	verifPoint("send.locked", s, "req", reqID, "tok", instance.securityTokenID)
 
 	m, err := instance.newRequestMessage(req, reqID, authToken, timeout)
 	if err != nil {
@@ -1044,6 +1067,7 @@ func (s *SecureChannel) sendAsyncWithTimeout(
 
 		// send the message
 		var n int
+		verifPoint("chunk.write", s, "msg", m, "i", i, "n", len(chunks), "seq", binary.LittleEndian.Uint32(chunks[i][verifSeqOff(m):]), "req", reqID, "chan", instance.secureChannelID, "tok", instance.securityTokenID, "len", len(chunk))
 		s.c.SetWriteDeadline(time.Now().Add(timeout))
 		if n, err = s.c.Write(chunk); err != nil {
 			return nil, err
@@ -1100,6 +1124,7 @@ func (s *SecureChannel) writeMessageChunks(ctx context.Context, instance *channe
 
 		// UASC writes are expected to flush complete chunks. Treat short writes as
 		// a hard error instead of silently truncating the response stream.
+		verifPoint("chunk.write", s, "msg", m, "i", i, "n", len(chunks), "seq", binary.LittleEndian.Uint32(chunks[i][verifSeqOff(m):]), "req", reqID, "chan", instance.secureChannelID, "tok", instance.securityTokenID, "len", len(chunk))
 		n, err := s.c.Write(chunk)
 		if err != nil {
 			return bytesSent, err
@@ -1163,6 +1188,7 @@ func (s *SecureChannel) sendResponseWithContext(ctx context.Context, instance *c
 	}
 	instance.Lock()
 	defer instance.Unlock()
+	verifPoint("resp.locked", s, "req", reqID, "tok", instance.securityTokenID)
 
 	m := instance.newMessage(resp, typeID, reqID)
 	if _, err := s.writeMessageChunks(ctx, instance, reqID, m, resp); err != nil {
